@@ -2,7 +2,7 @@ SPECIFICATION Spec
 CONSTANTS
   Keys = {"k1","k2","k3","k4"}
   Vals = {"v1","v2"}
-  MaxCap = 3
+  Caps = {2}
   L = 5
 CONSTRAINT Bound
 INVARIANT Emit
